@@ -184,6 +184,50 @@ func runC01(c c01Case) kit.Result {
 			if err := check("IterateIds", ids3, -1, nil); err != nil {
 				return err
 			}
+			// route 5: the application narrows the parsed filter to a set of ids with a condition it builds from nodes
+			// itself (AND of the parsed predicate and an untyped "id in [...]", typed by PostProcess), either way round
+			{
+				in := map[string]bool{}
+				var subset []string
+				for i, id := range all {
+					if i%2 == 0 {
+						subset = append(subset, id)
+						in[id] = true
+					}
+				}
+				subset = append(subset, "zz-not-stored")
+				var must5, may5 []string
+				for _, id := range must {
+					if in[id] {
+						must5 = append(must5, id)
+					}
+				}
+				for _, id := range may {
+					if in[id] {
+						may5 = append(may5, id)
+					}
+				}
+				for _, parsedFirst := range []bool{true, false} {
+					q5, _ := ast.Parse(store, text)
+					var restrict ast.BoolNode = ast.NewInArrayExprNode(ast.NewUntypedSymbolNode("id"), ast.NewStringArrayNode(subset))
+					var pred ast.BoolNode = ast.NewAndExprNode(q5.GetPredicate(), restrict)
+					if !parsedFirst {
+						pred = ast.NewAndExprNode(restrict, q5.GetPredicate())
+					}
+					route := fmt.Sprintf("QueryIdsC of (the parsed filter AND id in %q) composed from nodes and typed by PostProcess (parsed filter first: %v)", subset, parsedFirst)
+					if err := ast.PostProcess(store, &pred); err != nil {
+						return fmt.Errorf("filter: %s\n  %s: PostProcess: %v", text, route, err)
+					}
+					q5.SetPredicate(pred)
+					ids5, count5, err := store.QueryIdsC(tx, q5)
+					if err != nil {
+						return fmt.Errorf("filter: %s\n  %s returned error: %v", text, route, err)
+					}
+					if cerr := kit.CheckAnswer(ids5, must5, may5); cerr != nil {
+						return fmt.Errorf("filter: %s\n  %s -> %v (count %d)\n  reference: must match %v, unspecified %v\n  %v", text, route, sortedCopy(ids5), count5, must5, may5, cerr)
+					}
+				}
+			}
 			// route 4: ast alone over the harness's in-memory symbols (both cursor flavours)
 			for _, seekable := range []bool{false, true} {
 				qm, err := ast.Parse(kit.MemTypes(f.Kind), text)
